@@ -127,7 +127,7 @@ pub fn assumptions() -> Vec<String> {
         "a fit that fails or panics on the generated data yields no fitted instance: the case is counted as skipped (fitting is C09-C18's subject)".into(),
         "refit comparison (restored parameters fit to the same model) is made only for estimators whose fit is a function of (parameters, data): seeded generators travel \
          inside the parameter set as a serialisable SplitMix64 (rand_xoshiro is built without serde); FastIca always gets random_state; k-means|| initialisation and \
-         decision trees with more than two classes (impurity sums follow HashMap order) are not refit-compared; decision-tree refits use two classes and pairwise distinct sample weights".into(),
+         decision trees with more than two classes (impurity sums follow HashMap order) are not refit-compared; decision-tree refits use two classes and sample weights 1 + 2^-(i+1) (n <= 18), whose subset sums are exact in f32 and pairwise different, so no modal-class tie exists".into(),
         "count-vectoriser refits are compared up to column order (vocabulary order follows HashMap iteration at fit time)".into(),
         "SVM fits never enable `shrinking` (C13 finding); decision-tree features are multiples of 2^-8 so midpoints are exact (C14 finding)".into(),
         "linfa::Error::NdShape is documented as not serialisable (serde(skip) variant): serialising it must return an error, not panic".into(),
